@@ -34,6 +34,8 @@ def units_for(db, prop):
         if prop in cd.options.get("props", []) and not cd.options.get("trusted"):
             for v in R.variants_of(cd):
                 units.append(("contract", q, v))
+    if not units:
+        return []  # no function of this property is under a U contract: nothing to discharge
     files = set()
     for q, cd in db.contracts.items():
         if prop in cd.options.get("props", []):
